@@ -210,7 +210,7 @@ def run(ctx, driver):
                 "(b) numeric runs on analysed systems against a piecewise mpmath reference")
     rng = ctx.rng("hist")
     hists = [c["case"] for c in ctx.corpus() if "case" in c and "ops" in c["case"]]
-    hists += [gen_history(rng) for _ in range(400 if quick else 12000)]
+    hists += [gen_history(rng) for _ in range(ctx.n(400, 12000))]
     ops = []
     for h in hists:
         ctx.evaluations += 1
@@ -247,7 +247,7 @@ def run(ctx, driver):
     # ---- numeric oracle on real dictionaries
     rng = ctx.rng("numeric")
     cases = []
-    for i in range(12 if quick else 90):
+    for i in range(ctx.n(12, 90)):
         indict = NUMERIC_SYSTEMS[i % len(NUMERIC_SYSTEMS)]
         h = gen_history(rng)
         svars = {"I": ["I", "I" + indict.get("options", {}).get("differential_order_symbol", "__d")], "x": ["x", "y"], "u": ["u", "v"], "z": ["z"]}[indict["dynamics"][0]["expression"][0]]
